@@ -72,7 +72,7 @@ def run(tier):
                     rows.append({"num": t[0], "digest": t[1], "udigest": t[2], "start": t[3], "clen": t[4], "ulen": t[5]})
                 else:
                     rows.append({"num": t[0], "digest": t[1], "udigest": "", "start": t[2], "clen": t[3], "ulen": t[4]})
-        rep["chunks"] = rows
+        rep["chunks"] = rows; rep["bynum"] = []
         for key in ("data_length", "length"):
             if rep[key].isdigit() and int(rep[key]) >= 2**63:
                 rep[key] = "ERR"
